@@ -45,6 +45,31 @@ def forced(ctx):
     return {"real_forced_shutdowns": seen}
 
 
+def churn(ctx):
+    """forced shutdown while the workers' process trees keep changing (children exiting between the listing and their kill)"""
+    trials = 6 if ctx.tier == "quick" else 25
+    seen, bad = [], []
+    for use_psutil in (1, 0) if ctx.tier == "thorough" else (1,):
+        res = runner.run_script(kill_scen.SCRIPT, vlib.REPO, timeout=60 + 40 * trials, args=("churn", trials, use_psutil))
+        got = runner.last_json(res)
+        why = []
+        if got is None:
+            why.append("no result: " + res["stderr"][-300:])
+        else:
+            if got["hung"]:
+                why.append(f"shutdown(kill_workers=True) had not returned after 10 s in {got['hung']} of {got['trials']} trials with workers "
+                           "that keep starting short-lived children")
+            if got["workers_alive_after"]:
+                why.append(f"workers survive the forced shutdown: {got['workers_alive_after']}")
+        seen.append({"psutil": use_psutil, "trials": trials, "ok": not why, "observed": got})
+        if why:
+            bad.append({"plan": {"psutil": use_psutil, "trials": trials, "workers": "fork short-lived children in a loop"}, "why": why, "observed": got})
+    if bad:
+        rp = vlib.write_replay(ctx, "churn", {"kind": "forced shutdown of workers with changing process trees deviates", "cases": bad})
+        ctx.violations.append((f"real forced shutdown (changing trees): {bad[0]['why'][0][:160]}", rp, False))
+    return {"real_forced_shutdowns_changing_trees": seen}
+
+
 def deaths(ctx):
     plans = [("signal", 9, 2), ("exit", 3, 0), ("signal", 11, 1), ("signal", 15, 0)]
     if ctx.tier == "thorough":
